@@ -1190,12 +1190,9 @@ impl<'ast, 'res> Resolver<'ast, 'res> {
                             Some(ValueType::String)
                         }
                         (ValueType::Number, ValueType::Number) => Some(ValueType::Number),
+                        // A dynamic operand may be a number or a string at run time
                         (ValueType::Dynamic, ..) | (.., ValueType::Dynamic) => {
-                            if l == ValueType::Number || r == ValueType::Number {
-                                Some(ValueType::Number)
-                            } else {
-                                Some(ValueType::String)
-                            }
+                            Some(ValueType::Dynamic)
                         }
                         _ => None,
                     },
@@ -1227,14 +1224,14 @@ impl<'ast, 'res> Resolver<'ast, 'res> {
                 let t = self.infer_expr_type(expr)?;
                 match op {
                     UnaryOp::Not => {
-                        if t == ValueType::Bool || t == ValueType::Null {
+                        if matches!(t, ValueType::Bool | ValueType::Null | ValueType::Dynamic) {
                             Some(ValueType::Bool)
                         } else {
                             None
                         }
                     }
                     UnaryOp::Minus => {
-                        if t == ValueType::Number {
+                        if matches!(t, ValueType::Number | ValueType::Dynamic) {
                             Some(ValueType::Number)
                         } else {
                             None
